@@ -35,23 +35,26 @@ CONSTANTS Jobs,        \* set of job names
           Parents,     \* [Jobs -> SUBSET Jobs], acyclic
           Loc,         \* [Jobs -> location]  (volatile storage the job runs on / writes to)
           Sink,        \* the job whose output is the workflow output
-          Limit,       \* max_retries
-          Dummy,       \* TRUE: DummyFailureManager
+          Limit,       \* largest max_retries considered (the value of a run is the variable `lim`)
+          Dummy,       \* TRUE: DummyFailureManager (the value of a run is the variable `dummy`)
           MaxGen       \* bound on output generations per job (for the state constraint only)
 
 PhSet == {"s", "t", "e"}
 Succ(ph) == CASE ph = "s" -> "t" [] ph = "t" -> "e" [] ph = "e" -> "done"
 
-VARIABLES plan, budget, kind,  \* the failure plan: plan[<<x,ph>>] injected failures (constant), budget = those left, kind[<<x,ph>>]
+VARIABLES lim, dummy,          \* configuration of the run: max_retries, DummyFailureManager?
+          plan, budget, kind,  \* the failure plan: plan[<<x,ph>>] injected failures (constant), budget = those left, kind[<<x,ph>>]
           stk,                 \* stack of frames, stk[1] = the original workflow
           cur,                 \* job holding the token, or "none"
           gen, avail, prov,    \* gen[x]; avail[x][g]; prov[x][g] = [p -> generation read]
           version, attempts,   \* RecoveryRequest.version[x]; attempts[x][ph]
           status,              \* "running" | "done" | "raised" | "final"
           hist,                \* jobs in the order they took the token
-          failedEver, lostEver \* history: jobs that failed themselves / had an instance lost when rolled back
+          failedEver, lostEver, \* history: jobs that failed themselves / had an instance lost when rolled back
+          stale                 \* history: jobs whose "e" failed while the JobToken of their workflow referred to a lost
+                                \* instance that their transfer step no longer used (see StaleJobToken)
 
-vars == <<plan, budget, kind, stk, cur, gen, avail, prov, version, attempts, status, hist, failedEver, lostEver>>
+vars == <<lim, dummy, plan, budget, kind, stk, cur, gen, avail, prov, version, attempts, status, hist, failedEver, lostEver, stale>>
 
 Gens == 0..MaxGen
 NoIns == [p \in Jobs |-> 0]
@@ -95,7 +98,7 @@ StartInstances(f, x, ph) ==
 \* ------------------------------------------------------------------------------------------
 Init ==
   /\ plan \in [Jobs \X PhSet -> Nat] /\ kind \in [Jobs \X PhSet -> {"soft", "fail_stop"}]   \* narrowed by the MC module
-  /\ budget = plan
+  /\ budget = plan /\ lim = Limit /\ dummy = Dummy
   /\ stk = <<Frame0>> /\ cur = "none"
   /\ gen = [x \in Jobs |-> 0]
   /\ avail = [x \in Jobs |-> [g \in Gens |-> FALSE]]
@@ -103,7 +106,7 @@ Init ==
   /\ version = [x \in Jobs |-> 1]
   /\ attempts = [x \in Jobs |-> [ph \in PhSet |-> 0]]
   /\ status = "running" /\ hist = <<>>
-  /\ failedEver = {} /\ lostEver = {}
+  /\ failedEver = {} /\ lostEver = {} /\ stale = {}
 
 Ready(f, x) == f.next[x] \in PhSet /\ \A p \in Parents[x] : f.port[p] # 0
 
@@ -122,6 +125,12 @@ Pop(stack, f, x, ph) ==
       rest == SubSeq(stack, 1, Len(stack) - 2) \o <<par1>>
   IN IF Len(rest) > 1 /\ par1.fj = x /\ par1.upto = ph THEN Pop(rest, par1, x, ph) ELSE rest
 
+\* The situation in which the implementation is known to deviate from this specification: `_recover` adds to the
+\* graph inputs `get_job_token(failed_job.name, port.token_list)` - the FIRST JobToken of the job in the workflow's
+\* port - and after a recovery of the job's transfer step that token still records the OLD input instances.
+StaleJobToken(f, x, ph) ==
+  ph = "e" /\ \E p \in Parents[x] : f.jobtok[x][p] # f.staged[x][p] /\ ~avail'[p][f.jobtok[x][p]]
+
 \* the failure of phase ph of x in the top frame: RollbackFailureManager.recover.  The graph is built on the
 \* availability AFTER the failure (avail' : a fail-stop has wiped the location by then)
 RecoverP(x, ph) ==
@@ -129,9 +138,10 @@ RecoverP(x, ph) ==
       g == Graph(avail', StartInstances(f, x, ph))
       roll == g.rb \cup {x}
   IN /\ failedEver' = failedEver \cup {x}
+     /\ stale' = IF StaleJobToken(f, x, ph) THEN stale \cup {x} ELSE stale
      /\ lostEver' = lostEver \cup g.rb
      /\ cur' = "none"
-     /\ IF Dummy \/ \E y \in roll : version[y] >= Limit
+     /\ IF dummy \/ \E y \in roll : version[y] >= lim
           THEN /\ status' = "raised"
                /\ UNCHANGED <<stk, version>>
           ELSE /\ version' = [y \in Jobs |-> IF y \in roll THEN version[y] + 1 ELSE version[y]]
@@ -154,14 +164,14 @@ RunPhase(x) ==
              THEN \* injected failure (soft, or fail-stop = the location is wiped first)
                   /\ budget' = [budget EXCEPT ![k] = @ - 1]
                   /\ avail' = IF kind[k] = "fail_stop" THEN Wiped(Loc[x]) ELSE avail
-                  /\ UNCHANGED <<gen, prov, kind, plan>>
+                  /\ UNCHANGED <<gen, prov, kind, plan, lim, dummy>>
                   /\ RecoverP(x, ph)
              ELSE IF ph = "t" /\ \E p \in Parents[x] : ~avail[p][f.port[p]]
              THEN \* natural failure: the instance in this workflow's port is gone
-                  /\ UNCHANGED <<plan, budget, kind, avail, gen, prov>>
+                  /\ UNCHANGED <<lim, dummy, plan, budget, kind, avail, gen, prov>>
                   /\ RecoverP(x, ph)
              ELSE \* success
-                  /\ UNCHANGED <<plan, budget, kind, version, failedEver, lostEver>>
+                  /\ UNCHANGED <<lim, dummy, plan, budget, kind, version, failedEver, lostEver, stale>>
                   /\ LET g1 == gen[x] + 1
                          f1 == CASE ph = "s" -> [f EXCEPT !.next[x] = "t", !.jobtok[x] = [p \in Jobs |-> IF p \in Parents[x] THEN f.port[p] ELSE 0]]
                                  [] ph = "t" -> [f EXCEPT !.next[x] = "e", !.staged[x] = [p \in Jobs |-> IF p \in Parents[x] THEN f.port[p] ELSE 0]]
@@ -176,7 +186,7 @@ RunPhase(x) ==
                         /\ status' = IF Len(stk') = 1 /\ \A y \in Jobs : stk'[1].next[y] = "done" THEN "done" ELSE "running"
 
 Finalize == /\ status \in {"done", "raised"} /\ status' = "final"
-            /\ UNCHANGED <<plan, budget, kind, stk, cur, gen, avail, prov, version, attempts, hist, failedEver, lostEver>>
+            /\ UNCHANGED <<lim, dummy, plan, budget, kind, stk, cur, gen, avail, prov, version, attempts, hist, failedEver, lostEver, stale>>
 
 Next == (\E x \in Jobs : RunPhase(x)) \/ Finalize
 Spec == Init /\ [][Next]_vars /\ WF_vars(Next)
@@ -188,9 +198,12 @@ TypeOK == /\ status \in {"running", "done", "raised", "final"}
           /\ cur \in Jobs \cup {"none"}
           /\ \A x \in Jobs : gen[x] \in Gens
 \* C17: retries are bounded
-VersionBound == \A x \in Jobs : version[x] <= Limit
-ExecBound == \A x \in Jobs : \A ph \in PhSet : attempts[x][ph] <= Limit
-DummyFirstFailure == Dummy /\ status = "raised" => \A x \in Jobs : \A ph \in PhSet : attempts[x][ph] <= 1
+VersionBound == \A x \in Jobs : version[x] <= lim
+ExecBound == \A x \in Jobs : \A ph \in PhSet : attempts[x][ph] <= lim
+DummyFirstFailure == dummy /\ status \in {"raised", "final"} => \A x \in Jobs : \A ph \in PhSet : attempts[x][ph] <= 1
+\* C17: a (job, phase) that is reached and fails at least `lim` times makes the run raise; with the dummy manager any failure does
+ExhaustedRaises == status = "done" => /\ \A k \in Jobs \X PhSet : plan[k] - budget[k] < lim
+                                      /\ dummy => \A k \in Jobs \X PhSet : plan[k] = budget[k]
 \* C17 (L): every run ends (returns or raises) - no livelock
 Terminates == <>(status = "final")
 \* C16: a run that completes has its output available
